@@ -48,10 +48,14 @@ PALETTE = [
     ("code_length", "length", "custom"), ("kcode_length", "length", "custom"), ("code_length**2", "area", "custom"),
     ("code_temp", "temperature", "custom_offset"), ("code_mass/code_length**3", "density", "custom"),
     ("code_angle", "angle", "custom"), ("code_mass", "mass", "custom"),
+    # custom symbols whose dimension is a COMPOSITE containing a guarded base dimension; times a length / time they
+    # reduce to the bare guarded dimension, so the angle / temperature / logarithmic guards apply to the product
+    ("code_twist*m", "angle", "custom_comp"), ("code_twist*code_length", "angle", "custom_comp"), ("code_twist", "other", "custom_comp"),
+    ("code_tgrad*m", "temperature", "custom_comp"), ("code_lograte*s", "log", "custom_comp"), ("code_lograte", "other", "custom_comp"),
     # prefixed forms that exist only where the registry re-added the base symbol as prefixable
     ("mdegF", "temperature", "custom_offset"), ("kft", "length", "custom"), ("mhr", "time", "custom"),
 ]
-CUSTOM_SYMS = ("code_length", "code_temp", "code_mass", "code_angle")
+CUSTOM_SYMS = ("code_length", "code_temp", "code_mass", "code_angle", "code_twist", "code_tgrad", "code_lograte")
 TARGETS = {
     "length": ["cm", "km", "ft", "pc", "code_length", "kcode_length", "Mcode_length", "m"],
     "mass": ["g", "kg", "Msun", "code_mass", "lb"],
@@ -466,6 +470,11 @@ def gen_registry(r):
         op["edits"].append({"k": "add", "sym": "code_angle", "scale": r.choice([0.5, 0.017453292519943295]), "dims": "angle",
                             "prefixable": True})
     if r.random() < 0.5:
+        for sym, dims_, scale_ in (("code_twist", "angle/length", 0.5), ("code_tgrad", "temperature/length", 2.0),
+                                   ("code_lograte", "logarithmic/time", 3.0)):
+            if r.random() < 0.7:
+                op["edits"].append({"k": "add", "sym": sym, "scale": scale_, "dims": dims_, "prefixable": r.random() < 0.3})
+    if r.random() < 0.5:
         op["edits"].append({"k": "modify", "sym": r.choice(["m", "ft", "pc", "Msun", "degree", "K"]),
                             "value": r.choice([2.0, 0.5, 3.0])})
     if r.random() < 0.3:
@@ -508,7 +517,7 @@ def gen_run(r, cfg):
     pal = [p for p in PALETTE if custom or not p[2].startswith("custom")]
     # bias towards guard-relevant classes
     weights = {"plain": 1, "compound": 1.5, "temp": 2, "temp_offset": 4, "temp_delta": 2, "angle": 4, "angle_offset": 2,
-               "log": 3, "em": 2, "custom": 4, "custom_offset": 4}
+               "log": 3, "em": 2, "custom": 4, "custom_offset": 4, "custom_comp": 5}
     unit, dim, guard = wchoice(r, [(p, weights[p[2]]) for p in pal])
     have = {e["sym"] for e in regop.get("edits", []) if e["k"] == "add"}
     if guard.startswith("custom") and not all(s in have for s in CUSTOM_SYMS if s in unit):
@@ -581,6 +590,11 @@ def gen_run(r, cfg):
         if f == "to_equiv":
             fop["equiv"], fop["u"] = r.choice(EQUIVS)
         follows.append(fop)
+    directed = {"angle": ["sin", "cos", "tan"], "log": ["mulself", "mulm", "pow2", "sqrt"],
+                "temperature": ["mul2", "mulself", "addK", "subself", "diff", "divself"]}
+    if follows and dim in directed and r.random() < 0.5:
+        # at least one follow-up that meets the guard of the object's dimension
+        follows[-1] = {"k": "follow", "f": r.choice(directed[dim]), "first": r.choice(["orig", "rest"])}
     if late is not None and follows and r.random() < 0.6:
         # the object predates the last registry edit: convert it to ITS OWN spelling (resolved against the
         # table as it is now) - the one conversion where a stale cached unit gives factor 1
@@ -1025,10 +1039,11 @@ class Sim11:
                               "note": "the pickle / JSON formats do not carry the registry's unit system"},
                              ["persisted-table", "unit-system-not-persisted"])
                 return
+            g2 = [x[5:] for x in self.shape if str(x).startswith("gen2:")]
             self.violate("O2-follow-up-differs",
                          {"follow_up": fop, "original": o, "restored": rr, "differs": diffs, "chaos": chaos,
                           "shape": self.shape},
-                         [self.shape[0], f, ",".join(fields)])
+                         [self.shape[0] + (">" + g2[0] if g2 else ""), f, ",".join(fields)])
 
     # ---- savetxt / loadtxt with I/O faults
     def do_savetxt(self, orig, build, rt, follows, before):
